@@ -10,7 +10,7 @@
     - §2 the correspondence checker [la_dfa_check] and its soundness (no model is trusted);
     - §3 faithful model of the trie construction, of [unite], of the fold in
          [calculate_lookahead_dfas] and of the conversion [from_lookahead_dfa] (without [minimize]);
-    - §4 proofs: [trie_exact], [compile_sorted], [compile_wfd], [compile_depth_*];
+    - §4 proofs: [trie_exact], [compile_sorted], [compile_wfd], [compile_depth];
     - §5 findings: [unite_overwrites_refuted], [compile_depth_refuted], … *)
 From Coq Require Import List NArith ZArith Bool Lia Sorted Arith.
 From Parol Require Import Runtime.DfaEval.
@@ -514,9 +514,14 @@ Fixpoint unite_loop (fuel : nat) (other : ladfa) (r : ladfa) (m : smap) : res la
                            else Ok (u_r st))
   end.
 
-(** Fuel: every pass that reports a change has mapped at least one more state of [other]. *)
-Definition unite (self other : ladfa) : res ladfa :=
+(** [unite] as it was at the pinned commit: the lookahead size [k] of [self] is kept.
+    Fuel: every pass that reports a change has mapped at least one more state of [other]. *)
+Definition unite_old (self other : ladfa) : res ladfa :=
   unite_loop (S (length (la_states other))) other self [(0%N, 0%N)].
+
+(** [unite] after the repair (commit 06830b1): [this.k = max(this.k, other.k)] first. *)
+Definition unite (self other : ladfa) : res ladfa :=
+  unite_old (mkLa (la_states self) (la_trans self) (Nat.max (la_k self) (la_k other))) other.
 
 (** ** [calculate_lookahead_dfas], restricted to the productions of one non-terminal (they are
     visited in ascending production number = the order of [fam]). *)
@@ -531,6 +536,20 @@ Definition la_of_family (fam : family) : res ladfa :=
   match fam with
   | [] => NoAutomaton
   | e :: fam' => bind (from_k_tuples (snd e) (fst e)) (fun d => unite_all d fam')
+  end.
+
+(** The same with the pinned commit's [unite] (only used for the finding in §5). *)
+Fixpoint unite_all_old (acc : ladfa) (fam : family) : res ladfa :=
+  match fam with
+  | [] => Ok acc
+  | e :: fam' => bind (from_k_tuples (snd e) (fst e))
+                      (fun d => bind (unite_old acc d) (fun a => unite_all_old a fam'))
+  end.
+
+Definition la_of_family_old (fam : family) : res ladfa :=
+  match fam with
+  | [] => NoAutomaton
+  | e :: fam' => bind (from_k_tuples (snd e) (fst e)) (fun d => unite_all_old d fam')
   end.
 
 (** ** [CompiledDFA::from_lookahead_dfa], up to (excluding) the call of [minimize] *)
@@ -557,9 +576,10 @@ Definition compile_raw (d : ladfa) : dfa :=
 (** The un-minimised compiled automaton of a family. *)
 Definition compile (fam : family) : res dfa := bind (la_of_family fam) (fun d => Ok (compile_raw d)).
 
-Example ex_compile :
-  compile ex_fam = Ok (mkDfa (-1) [ mkTrans 0 5 1 (-1); mkTrans 1 0 2 1; mkTrans 1 6 3 (-1);
-                                    mkTrans 3 7 4 2 ] 2).
+Definition compile_old (fam : family) : res dfa :=
+  bind (la_of_family_old fam) (fun d => Ok (compile_raw d)).
+
+Example ex_compile : compile ex_fam = Ok d2_dfa.
 Proof. vm_compute. reflexivity. Qed.
 
 (* ------------------------------------------------------------------------------------------- *)
@@ -973,3 +993,912 @@ Proof.
     assert (HS : u = w <-> w = u) by (split; congruence).
     tauto.
 Qed.
+
+Lemma tinv_init : tinv 1 [] [[]].
+Proof.
+  constructor.
+  - reflexivity.
+  - reflexivity.
+  - constructor; [intros []|constructor].
+  - constructor.
+  - intros f c t [].
+  - intros t w c H. unfold npath in H. destruct (N.to_nat t) as [|[|n]]; cbn in H.
+    + inversion H as [E]. destruct w; discriminate.
+    + discriminate.
+    + discriminate.
+Qed.
+
+Lemma from_k_tuples_spec us p : us <> [] -> valid p = true ->
+  exists d paths, from_k_tuples us p = Ok d /\
+    tinv (length (la_states d)) (la_trans d) paths /\
+    (forall x, In x paths -> x = [] \/ exists v, In v us /\ prefix x v) /\
+    (forall v x, In v us -> prefix x v -> In x paths) /\
+    (forall w q, la_lang (la_states d) paths w q <-> In w us /\ q = p) /\
+    la_k d = max_len us.
+Proof.
+  intros Hne Vp. unfold from_k_tuples.
+  assert (E0 : match us with [] => p | _ => INVALID_PROD end = INVALID_PROD)
+    by (destruct us; [congruence|reflexivity]).
+  rewrite E0.
+  destruct (add_strings_spec p Vp us (mkLa [INVALID_PROD] [] 0) [[]] tinv_init)
+    as (d' & e & E & I & X & Y & L & K).
+  exists d', ([[]] ++ e). split; [exact E|]. split; [exact I|]. split.
+  { intros x Hx. apply in_app_or in Hx as [[<-|[]]|Hx]; [left; reflexivity|right; apply X; exact Hx]. }
+  split; [exact Y|]. split; [|rewrite K; cbn [la_k]; lia].
+  intros w q. rewrite L. cbn [la_states]. split.
+  - intros [H|[_ (s & Hs & Hq & Vq)]]; [exact H|].
+    destruct s as [|[|s]]; cbn in Hq; try discriminate. inversion Hq; subst. discriminate.
+  - intros H. left. exact H.
+Qed.
+
+(** ** [unite] *)
+Lemma m_get_cons t rs m k : m_get ((t, rs) :: m) k = if N.eqb t k then Some rs else m_get m k.
+Proof. unfold m_get. cbn [find fst snd]. destruct (N.eqb t k); reflexivity. Qed.
+
+Lemma filter_length_le {A} (f g : A -> bool) l :
+  (forall x, In x l -> g x = true -> f x = true) -> length (filter g l) <= length (filter f l).
+Proof.
+  induction l as [|a l IH]; intros H; [reflexivity|]. cbn [filter].
+  assert (IH' := IH (fun x Hx => H x (or_intror Hx))).
+  destruct (g a) eqn:G.
+  - rewrite (H a (or_introl eq_refl) G). cbn [length]. lia.
+  - destruct (f a); cbn [length]; lia.
+Qed.
+
+Lemma filter_length_lt {A} (f g : A -> bool) l x :
+  (forall y, In y l -> g y = true -> f y = true) -> In x l -> f x = true -> g x = false ->
+  length (filter g l) < length (filter f l).
+Proof.
+  induction l as [|a l IH]; intros H Hx Fx Gx; [destruct Hx|]. cbn [filter].
+  assert (Hle := filter_length_le f g l (fun y Hy => H y (or_intror Hy))).
+  destruct Hx as [->|Hx].
+  - rewrite Fx, Gx. cbn [length]. lia.
+  - assert (IH' := IH (fun y Hy => H y (or_intror Hy)) Hx Fx Gx).
+    destruct (g a) eqn:G.
+    + rewrite (H a (or_introl eq_refl) G). cbn [length]. lia.
+    + destruct (f a); cbn [length]; lia.
+Qed.
+
+Lemma filter_len {A} (f : A -> bool) l : length (filter f l) <= length l.
+Proof. induction l as [|a l IH]; cbn [filter length]; [lia|]. destruct (f a); cbn [length]; lia. Qed.
+
+Lemma fold_res_ind {A B} (f : A -> B -> res A) (P : A -> Prop) (R : A -> A -> Prop)
+      (Q : B -> A -> Prop) :
+  (forall a, R a a) -> (forall a b c, R a b -> R b c -> R a c) ->
+  (forall b a a', Q b a -> R a a' -> Q b a') ->
+  forall l,
+  (forall a b, In b l -> P a -> exists a', f a b = Ok a' /\ P a' /\ R a a' /\ Q b a') ->
+  forall a, P a ->
+  exists a', fold_res f l a = Ok a' /\ P a' /\ R a a' /\ forall b, In b l -> Q b a'.
+Proof.
+  intros Rrefl Rtrans Qst. induction l as [|b l IH]; intros Hstep a Pa.
+  - exists a. cbn [fold_res]. split; [reflexivity|]. split; [exact Pa|]. split; [apply Rrefl|].
+    intros b [].
+  - destruct (Hstep a b (or_introl eq_refl) Pa) as (a1 & E1 & P1 & R1 & Q1).
+    destruct (IH (fun a0 b0 Hb0 => Hstep a0 b0 (or_intror Hb0)) a1 P1) as (a' & E' & P' & R' & Q').
+    exists a'. cbn [fold_res]. rewrite E1. cbn [bind]. split; [exact E'|]. split; [exact P'|].
+    split; [apply (Rtrans _ _ _ R1 R')|]. intros b0 [<-|Hb0]; [apply (Qst _ _ _ Q1 R')|apply Q'; exact Hb0].
+Qed.
+
+Section Unite.
+  Variable o : ladfa.
+  Variable po : list (list N).
+  Hypothesis Io : tinv (length (la_states o)) (la_trans o) po.
+  Variable r0 : ladfa.
+  Variable p0 : list (list N).
+  Hypothesis I0 : tinv (length (la_states r0)) (la_trans r0) p0.
+  Hypothesis compat : forall w q q',
+    la_lang (la_states r0) p0 w q -> la_lang (la_states o) po w q' -> q = q'.
+
+  Record uinv (r : ladfa) (m : smap) (pr : list (list N)) : Prop := {
+    ui_t : tinv (length (la_states r)) (la_trans r) pr;
+    ui_ext : exists e, pr = p0 ++ e;
+    ui_k : la_k r = la_k r0;
+    ui_0 : m_get m 0%N = Some 0%N;
+    ui_m : forall t rs, m_get m t = Some rs ->
+           exists w, npath po t = Some w /\ npath pr rs = Some w;
+    ui_paths : forall x, In x pr -> In x p0 \/ In x po;
+    ui_st : forall s w, npath pr s = Some w ->
+        (exists t, t <> 0%N /\ m_get m t = Some s /\
+                   nth_error (la_states r) (N.to_nat s) = nth_error (la_states o) (N.to_nat t))
+        \/ ((forall t, t <> 0%N -> m_get m t <> Some s) /\ npath p0 s = Some w /\
+            nth_error (la_states r) (N.to_nat s) = nth_error (la_states r0) (N.to_nat s)) }.
+
+  Definition mu (m : smap) : nat :=
+    length (filter (fun k => match m_get m (N.of_nat k) with None => true | Some _ => false end)
+                   (seq 0 (length (la_states o)))).
+
+  Definition dom_le (m m' : smap) : Prop := forall k, m_get m k <> None -> m_get m' k <> None.
+
+  Lemma mu_le m m' : dom_le m m' -> mu m' <= mu m.
+  Proof.
+    intros H. unfold mu. apply filter_length_le. intros k _ Hk.
+    destruct (m_get m (N.of_nat k)) eqn:E; [|reflexivity].
+    exfalso. assert (D : m_get m' (N.of_nat k) <> None) by (apply H; congruence).
+    destruct (m_get m' (N.of_nat k)); [discriminate|congruence].
+  Qed.
+
+  Record Rel (st st' : ust) : Prop := {
+    rel_dom : dom_le (u_m st) (u_m st');
+    rel_ch : u_changed st = true -> u_changed st' = true;
+    rel_same : u_changed st' = false -> dom_le (u_m st') (u_m st);
+    rel_mu : u_changed st = false -> u_changed st' = true -> mu (u_m st') < mu (u_m st) }.
+
+  Lemma Rel_refl st : Rel st st.
+  Proof.
+    constructor.
+    - intros k H. exact H.
+    - intros H. exact H.
+    - intros _ k H. exact H.
+    - intros H1 H2. congruence.
+  Qed.
+
+  Lemma Rel_trans a b c : Rel a b -> Rel b c -> Rel a c.
+  Proof.
+    intros [D1 C1 S1 M1] [D2 C2 S2 M2]. constructor.
+    - intros k H. apply D2, D1, H.
+    - intros H. apply C2, C1, H.
+    - intros H k Hk. destruct (u_changed b) eqn:Cb; [rewrite (C2 eq_refl) in H; discriminate|].
+      apply (S1 eq_refl), (S2 H), Hk.
+    - intros Ha Hc. destruct (u_changed b) eqn:Cb.
+      + assert (L := mu_le _ _ D2). specialize (M1 Ha eq_refl). lia.
+      + assert (L := mu_le _ _ D1). specialize (M2 eq_refl Hc). lia.
+  Qed.
+
+  Lemma po_root t : npath po t = Some [] -> t = 0%N.
+  Proof.
+    intros H. apply (npath_inj po t 0%N [] (ti_nodup _ _ _ Io) H). apply (ti_root _ _ _ Io).
+  Qed.
+
+  Lemma nodup_app_absorb (pr e : list (list N)) x :
+    NoDup (pr ++ e) -> In x pr -> (forall y, In y e -> y = x) -> e = [].
+  Proof.
+    intros Hn Hx He. destruct e as [|y e]; [reflexivity|]. exfalso.
+    assert (y = x) by (apply He; left; reflexivity). subst y.
+    apply NoDup_remove_2 in Hn. apply Hn. apply in_or_app. left. exact Hx.
+  Qed.
+
+  Lemma unite_edge_inv r m ch pr f wf rsi c t :
+    uinv r m pr -> In (f, c, t) (flat (la_trans o)) ->
+    npath po f = Some wf -> npath pr rsi = Some wf ->
+    exists st' e, unite_edge o rsi (mkUst r m ch) (c, t) = Ok st' /\
+                  uinv (u_r st') (u_m st') (pr ++ e) /\ Rel (mkUst r m ch) st' /\
+                  m_get (u_m st') t <> None.
+  Proof.
+    intros U Hin Hf Hrsi.
+    destruct (ti_sound _ _ _ Io _ _ _ Hin) as (w' & Hf' & Ht). rewrite Hf in Hf'.
+    inversion Hf'; subst w'. clear Hf'.
+    assert (Ht0 : t <> 0%N).
+    { intros ->. rewrite (ti_root _ _ _ Io : npath po 0%N = Some []) in Ht.
+      inversion Ht as [E]. destruct wf; discriminate. }
+    unfold unite_edge. cbn [u_r u_m u_changed fst snd].
+    destruct (add_transition r rsi c) as [r1 rs] eqn:AT.
+    destruct (add_transition_inv _ _ _ _ _ _ _ (ui_t _ _ _ U) Hrsi AT) as (e & I1 & St1 & K1 & P1 & X1).
+    assert (Hnd := ti_nodup _ _ _ I1).
+    destruct (m_get m t) as [old|] eqn:Mt.
+    - (* already mapped: nothing changes *)
+      destruct (ui_m _ _ _ U _ _ Mt) as (w1 & A1 & B1). rewrite Ht in A1. inversion A1; subst w1.
+      assert (Ee : e = []).
+      { apply (nodup_app_absorb pr e (wf ++ [c]) Hnd (npath_in _ _ _ B1) X1). }
+      subst e. cbn [length repeat] in St1. rewrite app_nil_r in *.
+      assert (Ers : rs = old) by (apply (npath_inj pr rs old _ Hnd P1 B1)). subst old.
+      eexists. exists []. rewrite app_nil_r. split; [reflexivity|]. cbn [u_r u_m u_changed].
+      split; [|split].
+      + constructor.
+        * exact I1.
+        * apply (ui_ext _ _ _ U).
+        * rewrite K1. apply (ui_k _ _ _ U).
+        * rewrite m_get_cons. destruct (N.eqb_spec t 0) as [E|E]; [contradiction|apply (ui_0 _ _ _ U)].
+        * intros t' rs'. rewrite m_get_cons. destruct (N.eqb_spec t t') as [E|E].
+          -- intros H. inversion H; subst. exists (wf ++ [c]). auto.
+          -- apply (ui_m _ _ _ U).
+        * apply (ui_paths _ _ _ U).
+        * intros s w Hs. rewrite St1. destruct (ui_st _ _ _ U s w Hs) as [(t' & N0 & M' & S')|(NM & P & S')].
+          -- left. exists t'. split; [exact N0|]. split; [|exact S'].
+             rewrite m_get_cons. destruct (N.eqb_spec t t') as [E|E]; [subst; congruence|exact M'].
+          -- right. split; [|auto]. intros t' N0. rewrite m_get_cons.
+             destruct (N.eqb_spec t t') as [E|E]; [subst t'; rewrite <- Mt; apply (NM t N0)|apply (NM t' N0)].
+      + constructor; cbn [u_m u_changed].
+        * intros k. rewrite m_get_cons. destruct (N.eqb t k); [discriminate|auto].
+        * auto.
+        * intros _ k. rewrite m_get_cons. destruct (N.eqb_spec t k) as [E|E]; [subst; congruence|auto].
+        * intros A B. congruence.
+      + rewrite m_get_cons, N.eqb_refl. discriminate.
+    - (* newly mapped state *)
+      assert (Lt : N.to_nat t < length (la_states o)).
+      { rewrite <- (ti_len _ _ _ Io). apply (npath_lt _ _ _ Ht). }
+      destruct (nth_error (la_states o) (N.to_nat t)) as [op|] eqn:Eop;
+        [|apply nth_error_None in Eop; lia].
+      assert (Lrs : N.to_nat rs < length (la_states r1)).
+      { rewrite <- (ti_len _ _ _ I1). apply (npath_lt _ _ _ P1). }
+      destruct (nth_error (la_states r1) (N.to_nat rs)) as [rp|] eqn:Erp;
+        [|apply nth_error_None in Erp; lia].
+      (* before coining, [rs] is a new state or an untouched state of [r0] *)
+      assert (Hrs : N.to_nat rs < length pr ->
+                    (forall t', t' <> 0%N -> m_get m t' <> Some rs) /\ npath p0 rs = Some (wf ++ [c]) /\
+                    nth_error (la_states r) (N.to_nat rs) = nth_error (la_states r0) (N.to_nat rs)).
+      { intros L. assert (Hp : npath pr rs = Some (wf ++ [c])).
+        { unfold npath in *. rewrite nth_error_app1 in P1 by exact L. exact P1. }
+        destruct (ui_st _ _ _ U rs _ Hp) as [(t' & N0 & M' & S')|H]; [|exact H].
+        exfalso. destruct (ui_m _ _ _ U _ _ M') as (w1 & A1 & B1). rewrite Hp in B1.
+        inversion B1; subst w1. rewrite (npath_inj po t' t _ (ti_nodup _ _ _ Io) A1 Ht) in M'.
+        congruence. }
+      assert (Hnoconf : valid op && valid rp && negb (Z.eqb op rp) = false).
+      { destruct (valid op) eqn:Vo; [|reflexivity]. destruct (valid rp) eqn:Vr; [|reflexivity].
+        cbn [andb]. apply negb_false_iff. apply Z.eqb_eq.
+        destruct (Nat.lt_ge_cases (N.to_nat rs) (length pr)) as [L|L].
+        - destruct (Hrs L) as (_ & Pp & Ss). symmetry. apply (compat (wf ++ [c]) rp op).
+          + exists (N.to_nat rs). split; [exact Pp|]. split; [|exact Vr].
+            rewrite <- Ss. rewrite St1, nth_error_app1 in Erp; [exact Erp|].
+            rewrite <- (ti_len _ _ _ (ui_t _ _ _ U)). exact L.
+          + exists (N.to_nat t). split; [exact Ht|]. split; [exact Eop|exact Vo].
+        - rewrite St1, nth_error_app2 in Erp by (rewrite <- (ti_len _ _ _ (ui_t _ _ _ U)); exact L).
+          apply nth_error_repeat in Erp. subst rp. discriminate. }
+      rewrite Hnoconf. unfold set_prod.
+      destruct (upd_nth_some op _ _ Lrs) as (st2 & E2 & L2 & A2 & B2). rewrite E2. cbn [bind].
+      eexists. exists e. split; [reflexivity|]. cbn [u_r u_m u_changed la_states la_trans la_k].
+      split; [|split].
+      + constructor; cbn [la_states la_trans la_k].
+        * rewrite L2. exact I1.
+        * destruct (ui_ext _ _ _ U) as (e0 & ->). exists (e0 ++ e). rewrite app_assoc. reflexivity.
+        * rewrite K1. apply (ui_k _ _ _ U).
+        * rewrite m_get_cons. destruct (N.eqb_spec t 0) as [E|E]; [contradiction|apply (ui_0 _ _ _ U)].
+        * intros t' rs'. rewrite m_get_cons. destruct (N.eqb_spec t t') as [E|E].
+          -- intros H. inversion H; subst. exists (wf ++ [c]). auto.
+          -- intros H. destruct (ui_m _ _ _ U _ _ H) as (w1 & A1 & B1). exists w1.
+             split; [exact A1|apply npath_app; exact B1].
+        * intros x Hx. apply in_app_or in Hx as [Hx|Hx]; [apply (ui_paths _ _ _ U); exact Hx|].
+          right. rewrite (X1 x Hx). apply (npath_in _ _ _ Ht).
+        * intros s w Hs. destruct (N.eq_dec s rs) as [->|Ne].
+          -- left. exists t. split; [exact Ht0|]. split; [rewrite m_get_cons, N.eqb_refl; reflexivity|].
+             rewrite A2. symmetry. exact Eop.
+          -- assert (Nn : N.to_nat s <> N.to_nat rs) by (intros H; apply Ne, N2Nat.inj, H).
+             rewrite (B2 _ Nn).
+             assert (L : N.to_nat s < length pr).
+             { destruct (Nat.lt_ge_cases (N.to_nat s) (length pr)) as [L|L]; [exact L|exfalso].
+               assert (Hs' := Hs). unfold npath in Hs'. rewrite nth_error_app2 in Hs' by exact L.
+               apply nth_error_In in Hs'. apply X1 in Hs'. subst w.
+               apply Ne. apply (npath_inj (pr ++ e) s rs (wf ++ [c]) Hnd Hs P1). }
+             assert (Hsp : npath pr s = Some w).
+             { unfold npath in *. rewrite nth_error_app1 in Hs by exact L. exact Hs. }
+             rewrite St1, nth_error_app1 by (rewrite <- (ti_len _ _ _ (ui_t _ _ _ U)); exact L).
+             destruct (ui_st _ _ _ U s w Hsp) as [(t' & N0 & M' & S')|(NM & P & S')].
+             ++ left. exists t'. split; [exact N0|]. split; [|exact S'].
+                rewrite m_get_cons. destruct (N.eqb_spec t t') as [E|E]; [subst; congruence|exact M'].
+             ++ right. split; [|auto]. intros t' N0. rewrite m_get_cons.
+                destruct (N.eqb_spec t t') as [E|E]; [|apply NM; exact N0].
+                intros H. inversion H. congruence.
+      + constructor; cbn [u_m u_changed].
+        * intros k. rewrite m_get_cons. destruct (N.eqb t k); [discriminate|auto].
+        * auto.
+        * discriminate.
+        * intros _ _. unfold mu. apply filter_length_lt with (x := N.to_nat t).
+          -- intros k _ Hk. rewrite m_get_cons in Hk.
+             destruct (N.eqb t (N.of_nat k)); [discriminate|exact Hk].
+          -- apply in_seq. lia.
+          -- rewrite N2Nat.id, Mt. reflexivity.
+          -- rewrite N2Nat.id, m_get_cons, N.eqb_refl. reflexivity.
+      + rewrite m_get_cons, N.eqb_refl. discriminate.
+  Qed.
+
+  Definition QE (e : N * N) (st : ust) : Prop := m_get (u_m st) (snd e) <> None.
+  Definition QG (g : N * list (N * N)) (st : ust) : Prop :=
+    u_changed st = false -> m_get (u_m st) (fst g) <> None ->
+    forall e, In e (snd g) -> m_get (u_m st) (snd e) <> None.
+  Definition PU (st : ust) : Prop := exists pr, uinv (u_r st) (u_m st) pr.
+
+  Lemma group_in_flat (gs : groups) g e : In g gs -> In e (snd g) -> In (fst g, fst e, snd e) (flat gs).
+  Proof.
+    intros Hg He. unfold flat. apply in_flat_map. exists g. split; [exact Hg|].
+    apply in_map_iff. exists e. auto.
+  Qed.
+
+  Lemma unite_group_inv st g :
+    PU st -> In g (la_trans o) ->
+    exists st', unite_group o st g = Ok st' /\ PU st' /\ Rel st st' /\ QG g st'.
+  Proof.
+    intros (pr & U) Hg. unfold unite_group. destruct (m_get (u_m st) (fst g)) as [rsi|] eqn:Mf.
+    - destruct (ui_m _ _ _ U _ _ Mf) as (wf & Hf & Hrsi).
+      destruct (fold_res_ind (unite_edge o rsi)
+                  (fun st => exists pr, uinv (u_r st) (u_m st) pr /\ npath pr rsi = Some wf)
+                  Rel QE Rel_refl Rel_trans) with (l := snd g) (a := st)
+        as (st' & E & (pr' & U' & _) & R' & Q').
+      + intros b a a' Hq Hr. unfold QE in *. apply (rel_dom _ _ Hr). exact Hq.
+      + intros a [c t] Hb (pra & Ua & Hra). destruct a as [ra ma cha]. cbn [u_r u_m] in *.
+        destruct (unite_edge_inv ra ma cha pra (fst g) wf rsi c t Ua
+                    (group_in_flat _ g (c, t) Hg Hb) Hf Hra) as (st1 & e & E1 & U1 & R1 & M1).
+        exists st1. split; [exact E1|]. split; [exists (pra ++ e); split; [exact U1|apply npath_app; exact Hra]|].
+        split; [exact R1|exact M1].
+      + exists pr. auto.
+      + exists st'. split; [exact E|]. split; [exists pr'; exact U'|]. split; [exact R'|].
+        intros _ _ e He. apply (Q' e He).
+    - exists st. split; [reflexivity|]. split; [exists pr; exact U|]. split; [apply Rel_refl|].
+      intros _ H. congruence.
+  Qed.
+
+  Lemma QG_stable g a a' : QG g a -> Rel a a' -> QG g a'.
+  Proof.
+    intros Hq Hr Hc Hf e He. apply (rel_dom _ _ Hr). apply Hq.
+    - destruct (u_changed a) eqn:Ca; [|reflexivity]. rewrite (rel_ch _ _ Hr Ca) in Hc. discriminate.
+    - apply (rel_same _ _ Hr Hc). exact Hf.
+    - exact He.
+  Qed.
+
+  Lemma unite_pass_inv st :
+    PU st ->
+    exists st', unite_pass o st = Ok st' /\ PU st' /\ Rel st st' /\
+      forall g, In g (la_trans o) -> QG g st'.
+  Proof.
+    intros P. unfold unite_pass.
+    apply (fold_res_ind (unite_group o) PU Rel QG Rel_refl Rel_trans QG_stable (la_trans o)); [|exact P].
+    intros a g Hg Pa. apply (unite_group_inv a g Pa Hg).
+  Qed.
+
+  (** When a pass reports no change every state of [other] is mapped. *)
+  Lemma all_mapped m :
+    m_get m 0%N = Some 0%N ->
+    (forall g, In g (la_trans o) -> QG g (mkUst r0 m false)) ->
+    forall w t, npath po t = Some w -> m_get m t <> None.
+  Proof.
+    intros H0 Hcl. induction w as [|c w IH] using rev_ind; intros t Ht.
+    - rewrite (po_root t Ht), H0. discriminate.
+    - destruct (ti_complete _ _ _ Io _ _ _ Ht) as (f & Hf & G). apply tr_get_in in G.
+      apply flat_in_group in G as (g & Hg & <- & He).
+      apply (Hcl g Hg eq_refl (IH _ Hf) (c, t) He).
+  Qed.
+
+  Lemma unite_loop_inv : forall fuel r m,
+    PU (mkUst r m false) -> mu m < fuel ->
+    exists r' m' pr, unite_loop fuel o r m = Ok r' /\ uinv r' m' pr /\
+      forall w t, npath po t = Some w -> m_get m' t <> None.
+  Proof.
+    induction fuel as [|fuel IH]; intros r m P Hmu; [lia|].
+    cbn [unite_loop]. destruct (unite_pass_inv _ P) as (st' & E & (pr' & U') & R' & Q').
+    rewrite E. cbn [bind]. destruct (u_changed st') eqn:Ch.
+    - apply IH; [exists pr'; exact U'|]. assert (L := rel_mu _ _ R' eq_refl Ch). cbn [u_m] in L. lia.
+    - exists (u_r st'), (u_m st'), pr'. split; [reflexivity|]. split; [exact U'|].
+      apply all_mapped; [apply (ui_0 _ _ _ U')|]. intros g Hg Hc Hf e He. cbn [u_m] in *.
+      apply (Q' g Hg Ch Hf e He).
+  Qed.
+
+  Lemma uinv_init : uinv r0 [(0%N, 0%N)] p0.
+  Proof.
+    constructor.
+    - exact I0.
+    - exists []. rewrite app_nil_r. reflexivity.
+    - reflexivity.
+    - reflexivity.
+    - intros t rs. rewrite m_get_cons. destruct (N.eqb_spec 0 t) as [<-|E]; [|discriminate].
+      intros H. inversion H; subst. exists []. split; [apply (ti_root _ _ _ Io)|apply (ti_root _ _ _ I0)].
+    - intros x Hx. left. exact Hx.
+    - intros s w Hs. right. split; [|auto]. intros t Ht. rewrite m_get_cons.
+      destruct (N.eqb_spec 0 t) as [E|E]; [congruence|discriminate].
+  Qed.
+
+  Lemma la_lang_N states paths w q :
+    la_lang states paths w q <->
+    exists s : N, npath paths s = Some w /\ nth_error states (N.to_nat s) = Some q /\ valid q = true.
+  Proof.
+    unfold la_lang, npath. split.
+    - intros (i & A & B & C). exists (N.of_nat i). rewrite Nat2N.id. auto.
+    - intros (s & A & B & C). exists (N.to_nat s). auto.
+  Qed.
+
+  Theorem unite_old_spec :
+    exists r pr, unite_old r0 o = Ok r /\ tinv (length (la_states r)) (la_trans r) pr /\
+      (forall x, In x pr <-> In x p0 \/ In x po) /\
+      (forall w q, la_lang (la_states r) pr w q <->
+                   (w <> [] /\ la_lang (la_states o) po w q) \/
+                   ((w = [] \/ ~ In w po) /\ la_lang (la_states r0) p0 w q)) /\
+      la_k r = la_k r0.
+  Proof.
+    unfold unite_old.
+    destruct (unite_loop_inv (S (length (la_states o))) r0 [(0%N, 0%N)]) as (r & m & pr & E & U & AM).
+    { exists p0. apply uinv_init. }
+    { unfold mu. assert (L := filter_len
+        (fun k => match m_get [(0%N, 0%N)] (N.of_nat k) with None => true | Some _ => false end)
+        (seq 0 (length (la_states o)))).
+      rewrite seq_length in L. lia. }
+    exists r, pr. split; [exact E|]. split; [apply (ui_t _ _ _ U)|].
+    assert (Hndr := ti_nodup _ _ _ (ui_t _ _ _ U)).
+    assert (Hndo := ti_nodup _ _ _ Io).
+    split; [|split; [|apply (ui_k _ _ _ U)]].
+    - intros x. split; [apply (ui_paths _ _ _ U)|]. intros [Hx|Hx].
+      + destruct (ui_ext _ _ _ U) as (e & ->). apply in_or_app. left. exact Hx.
+      + apply in_npath in Hx as (t & Ht). destruct (m_get m t) as [rs|] eqn:Mt; [|exfalso; apply (AM _ _ Ht Mt)].
+        destruct (ui_m _ _ _ U _ _ Mt) as (w1 & A1 & B1). rewrite Ht in A1. inversion A1; subst.
+        apply (npath_in _ _ _ B1).
+    - intros w q. rewrite !la_lang_N. split.
+      + intros (s & Hs & Hq & Vq). destruct (ui_st _ _ _ U s w Hs) as [(t & N0 & M' & S')|(NM & P & S')].
+        * left. destruct (ui_m _ _ _ U _ _ M') as (w1 & A1 & B1). rewrite Hs in B1. inversion B1; subst w1.
+          split; [intros ->; apply N0, po_root, A1|]. exists t. split; [exact A1|]. split; [congruence|exact Vq].
+        * right. split; [|exists s; split; [exact P|split; [congruence|exact Vq]]].
+          destruct w as [|a w]; [left; reflexivity|right]. intros Hin.
+          apply in_npath in Hin as (t & Ht).
+          destruct (m_get m t) as [rs|] eqn:Mt; [|apply (AM _ _ Ht Mt)].
+          destruct (ui_m _ _ _ U _ _ Mt) as (w1 & A1 & B1). rewrite Ht in A1. inversion A1; subst w1.
+          rewrite (npath_inj pr rs s _ Hndr B1 Hs) in Mt. apply (NM t); [|exact Mt].
+          intros ->. rewrite (ti_root _ _ _ Io : npath po 0%N = Some []) in Ht. discriminate.
+      + intros [(Hne & t & Ht & Hq & Vq)|(Hw & s & Hs & Hq & Vq)].
+        * destruct (m_get m t) as [rs|] eqn:Mt; [|exfalso; apply (AM _ _ Ht Mt)].
+          destruct (ui_m _ _ _ U _ _ Mt) as (w1 & A1 & B1). rewrite Ht in A1. inversion A1; subst w1.
+          exists rs. split; [exact B1|]. split; [|exact Vq].
+          destruct (ui_st _ _ _ U rs w B1) as [(t' & N0 & M' & S')|(NM & P & S')].
+          -- destruct (ui_m _ _ _ U _ _ M') as (w2 & A2 & B2). rewrite B1 in B2. inversion B2; subst w2.
+             rewrite (npath_inj po t' t _ Hndo A2 Ht) in S'. congruence.
+          -- exfalso. apply (NM t); [|exact Mt]. intros ->.
+             rewrite (ti_root _ _ _ Io : npath po 0%N = Some []) in Ht. inversion Ht. congruence.
+        * assert (Hsr : npath pr s = Some w).
+          { destruct (ui_ext _ _ _ U) as (e & ->). apply npath_app. exact Hs. }
+          exists s. split; [exact Hsr|]. split; [|exact Vq].
+          destruct (ui_st _ _ _ U s w Hsr) as [(t' & N0 & M' & S')|(NM & P & S')]; [|congruence].
+          exfalso. destruct (ui_m _ _ _ U _ _ M') as (w2 & A2 & B2). rewrite Hsr in B2. inversion B2; subst w2.
+          destruct Hw as [->|Hw]; [apply N0, po_root, A2|apply Hw, (npath_in _ _ _ A2)].
+  Qed.
+End Unite.
+
+Theorem unite_spec o po r0 p0 :
+  tinv (length (la_states o)) (la_trans o) po ->
+  tinv (length (la_states r0)) (la_trans r0) p0 ->
+  (forall w q q', la_lang (la_states r0) p0 w q -> la_lang (la_states o) po w q' -> q = q') ->
+  exists r pr, unite r0 o = Ok r /\ tinv (length (la_states r)) (la_trans r) pr /\
+    (forall x, In x pr <-> In x p0 \/ In x po) /\
+    (forall w q, la_lang (la_states r) pr w q <->
+                 (w <> [] /\ la_lang (la_states o) po w q) \/
+                 ((w = [] \/ ~ In w po) /\ la_lang (la_states r0) p0 w q)) /\
+    la_k r = Nat.max (la_k r0) (la_k o).
+Proof.
+  intros Io I0 compat. unfold unite.
+  apply (unite_old_spec o po Io
+           (mkLa (la_states r0) (la_trans r0) (Nat.max (la_k r0) (la_k o))) p0 I0 compat).
+Qed.
+
+(** ** The fold over the productions of a non-terminal *)
+Record finv (E : list (Z * list N)) (d : ladfa) (paths : list (list N)) : Prop := {
+  fi_t : tinv (length (la_states d)) (la_trans d) paths;
+  fi_paths : forall x, In x paths -> x = [] \/ exists q v, In (q, v) E /\ prefix x v;
+  fi_lang : forall w q, la_lang (la_states d) paths w q <-> In (q, w) E }.
+
+Lemma in_entries_elem fam e u : In e fam -> In u (snd e) -> In (fst e, u) (entries fam).
+Proof.
+  intros He Hu. unfold entries. apply in_flat_map. exists e. split; [exact He|].
+  apply in_map_iff. exists u. auto.
+Qed.
+
+Lemma in_entries_single e q w : In (q, w) (entries [e]) <-> q = fst e /\ In w (snd e).
+Proof.
+  unfold entries. cbn [flat_map]. rewrite app_nil_r, in_map_iff. split.
+  - intros (u & E & Hu). inversion E; subst. auto.
+  - intros [-> Hw]. exists w. auto.
+Qed.
+
+Lemma valid_nonneg p : (0 <= p)%Z -> valid p = true.
+Proof. intros H. unfold valid, INVALID_PROD. apply Z.ltb_lt. lia. Qed.
+
+Lemma prefix_refl u : prefix u u.
+Proof. exists []. rewrite app_nil_r. reflexivity. Qed.
+
+Lemma max_len_app a b : max_len (a ++ b) = Nat.max (max_len a) (max_len b).
+Proof.
+  induction a as [|u a IH]; cbn [app max_len fold_right]; [reflexivity|].
+  fold (max_len (a ++ b)). fold (max_len a). rewrite IH. lia.
+Qed.
+
+Lemma fam_max_len_cons e fam :
+  fam_max_len (e :: fam) = Nat.max (max_len (snd e)) (fam_max_len fam).
+Proof.
+  unfold fam_max_len, entries. cbn [flat_map]. rewrite map_app, max_len_app, map_map. cbn [snd].
+  rewrite map_id. reflexivity.
+Qed.
+
+Lemma unite_all_spec : forall fam2 fam1 acc paths,
+  fam_det (fam1 ++ fam2) -> fam1 <> [] -> finv (entries fam1) acc paths ->
+  exists d paths', unite_all acc fam2 = Ok d /\ finv (entries (fam1 ++ fam2)) d paths' /\
+                   la_k d = Nat.max (la_k acc) (fam_max_len fam2).
+Proof.
+  induction fam2 as [|e fam2 IH]; intros fam1 acc paths Hdet Hne F.
+  - exists acc, paths. cbn [unite_all]. rewrite app_nil_r. split; [reflexivity|].
+    split; [exact F|]. cbn. lia.
+  - cbn [unite_all]. destruct Hdet as [Hd1 Hd2].
+    assert (Hin_e : In e (fam1 ++ e :: fam2)) by (apply in_or_app; right; left; reflexivity).
+    destruct (Hd1 e Hin_e) as [Hp Hs].
+    destruct (from_k_tuples_spec (snd e) (fst e) Hs (valid_nonneg _ Hp))
+      as (o & po & Eo & Io & Xo & Yo & Lo & Ko).
+    rewrite Eo. cbn [bind].
+    assert (Hsub1 : forall q w, In (q, w) (entries fam1) -> In (q, w) (entries (fam1 ++ e :: fam2))).
+    { intros q w H. rewrite entries_app. apply in_or_app. left. exact H. }
+    assert (Hsube : forall w, In w (snd e) -> In (fst e, w) (entries (fam1 ++ e :: fam2))).
+    { intros w H. apply in_entries_elem; assumption. }
+    destruct (unite_spec o po acc paths Io (fi_t _ _ _ F)) as (r & pr & Er & Ir & Xr & Lr & Kr).
+    { intros w q q' H1 H2. apply (fi_lang _ _ _ F) in H1. apply Lo in H2 as [H2 ->].
+      apply (Hd2 q w (fst e) w (Hsub1 _ _ H1) (Hsube _ H2) (prefix_refl w)). }
+    rewrite Er. cbn [bind].
+    assert (E' : fam1 ++ e :: fam2 = (fam1 ++ [e]) ++ fam2) by (rewrite <- app_assoc; reflexivity).
+    destruct (IH (fam1 ++ [e]) r pr) as (d & paths' & Ed & Fd & Kd).
+    + rewrite <- E'. split; assumption.
+    + destruct fam1; discriminate.
+    + constructor.
+      * exact Ir.
+      * intros x Hx. apply Xr in Hx as [Hx|Hx].
+        -- destruct (fi_paths _ _ _ F x Hx) as [->|(q & v & Hv & Hp')]; [left; reflexivity|right].
+           exists q, v. split; [rewrite entries_app; apply in_or_app; left; exact Hv|exact Hp'].
+        -- destruct (Xo x Hx) as [->|(v & Hv & Hp')]; [left; reflexivity|right].
+           exists (fst e), v. split; [|exact Hp']. rewrite entries_app. apply in_or_app. right.
+           apply in_entries_single. auto.
+      * intros w q. rewrite Lr, entries_app, in_app_iff, in_entries_single, Lo, (fi_lang _ _ _ F).
+        split.
+        -- intros [[_ [H ->]]|[_ H]]; [right; auto|left; exact H].
+        -- intros [H|[-> H]].
+           ++ destruct w as [|a w]; [right; split; [left; reflexivity|exact H]|].
+              destruct (mem_str (a :: w) po) eqn:M.
+              ** apply mem_str_spec in M. destruct (Xo _ M) as [Hnil|(v & Hv & Hp')]; [discriminate|].
+                 destruct (Hd2 q (a :: w) (fst e) v (Hsub1 _ _ H) (Hsube _ Hv) Hp') as [Ev ->].
+                 left. split; [discriminate|]. split; [rewrite Ev; exact Hv|reflexivity].
+              ** right. split; [|exact H]. right. intros Hin. apply mem_str_spec in Hin. congruence.
+           ++ destruct w as [|a w]; [|left; split; [discriminate|auto]].
+              right. split; [left; reflexivity|].
+              destruct fam1 as [|e1 fam1']; [congruence|].
+              assert (Hin1 : In e1 ((e1 :: fam1') ++ e :: fam2)) by (left; reflexivity).
+              destruct (Hd1 e1 Hin1) as [_ Hs1]. destruct (snd e1) as [|v vs] eqn:Ev; [congruence|].
+              assert (Hv : In (fst e1, v) (entries (e1 :: fam1'))).
+              { apply in_entries_elem; [left; reflexivity|rewrite Ev; left; reflexivity]. }
+              destruct (Hd2 (fst e) [] (fst e1) v (Hsube _ H) (Hsub1 _ _ Hv)) as [<- ->];
+                [exists v; reflexivity|exact Hv].
+    + exists d, paths'. rewrite E'. split; [exact Ed|]. split; [exact Fd|].
+      rewrite Kd, Kr, Ko, fam_max_len_cons. lia.
+Qed.
+
+Lemma la_of_family_spec e fam' :
+  fam_det (e :: fam') ->
+  exists d paths, la_of_family (e :: fam') = Ok d /\ finv (entries (e :: fam')) d paths /\
+                  la_k d = fam_max_len (e :: fam').
+Proof.
+  intros Hdet. cbn [la_of_family]. destruct Hdet as [Hd1 Hd2].
+  destruct (Hd1 e (or_introl eq_refl)) as [Hp Hs].
+  destruct (from_k_tuples_spec (snd e) (fst e) Hs (valid_nonneg _ Hp))
+    as (o & po & Eo & Io & Xo & Yo & Lo & Ko).
+  rewrite Eo. cbn [bind].
+  destruct (unite_all_spec fam' [e] o po) as (d & paths & Ed & Fd & Kd).
+  - split; assumption.
+  - discriminate.
+  - constructor.
+    + exact Io.
+    + intros x Hx. destruct (Xo x Hx) as [->|(v & Hv & Hp')]; [left; reflexivity|right].
+      exists (fst e), v. split; [apply in_entries_single; auto|exact Hp'].
+    + intros w q. rewrite Lo, in_entries_single. tauto.
+  - exists d, paths. split; [exact Ed|]. split; [exact Fd|].
+    rewrite Kd, Ko, fam_max_len_cons. reflexivity.
+Qed.
+
+(** ** The compiled table *)
+Fixpoint la_run (gs : groups) (u : list N) (s : N) : option N :=
+  match u with
+  | [] => Some s
+  | c :: u' => match tr_get gs s c with Some t => la_run gs u' t | None => None end
+  end.
+
+Lemma paths_prefix_closed n gs paths : tinv n gs paths ->
+  forall b a s, npath paths s = Some (a ++ b) -> exists s0, npath paths s0 = Some a.
+Proof.
+  intros I. induction b as [|c b IH] using rev_ind; intros a s H.
+  - rewrite app_nil_r in H. eauto.
+  - rewrite app_assoc in H. destruct (ti_complete _ _ _ I _ _ _ H) as (f & Hf & _).
+    apply (IH a f Hf).
+Qed.
+
+Lemma la_run_path n gs paths : tinv n gs paths ->
+  forall u s w s', npath paths s = Some w ->
+  (la_run gs u s = Some s' <-> npath paths s' = Some (w ++ u)).
+Proof.
+  intros I. induction u as [|c u IH]; intros s w s' Hs; cbn [la_run].
+  - rewrite app_nil_r. split.
+    + intros H. inversion H; subst. exact Hs.
+    + intros H. f_equal. apply (npath_inj _ _ _ _ (ti_nodup _ _ _ I) Hs H).
+  - replace (w ++ c :: u) with ((w ++ [c]) ++ u) by (rewrite <- app_assoc; reflexivity).
+    destruct (tr_get gs s c) as [t|] eqn:G.
+    + assert (G' := tr_get_in _ _ _ _ G). destruct (ti_sound _ _ _ I _ _ _ G') as (w' & A & B).
+      rewrite Hs in A. inversion A; subst w'. apply (IH t (w ++ [c]) s' B).
+    + split; [discriminate|]. intros H. exfalso.
+      destruct (paths_prefix_closed _ _ _ I u (w ++ [c]) s' H) as (t & Ht).
+      destruct (ti_complete _ _ _ I _ _ _ Ht) as (f & Hf & G').
+      rewrite (npath_inj _ _ _ _ (ti_nodup _ _ _ I) Hf Hs) in G'. congruence.
+Qed.
+
+Lemma find_ins_term c x l :
+  find (fun e : N * N => N.eqb (fst e) c) (ins_term x l) =
+  if N.eqb (fst x) c then Some x else find (fun e => N.eqb (fst e) c) l.
+Proof.
+  induction l as [|y l IH]; cbn [ins_term find]; [reflexivity|].
+  destruct (N.leb (fst x) (fst y)) eqn:L; cbn [find]; [reflexivity|].
+  apply N.leb_gt in L. rewrite IH.
+  destruct (N.eqb_spec (fst y) c) as [E|E]; [|reflexivity].
+  destruct (N.eqb_spec (fst x) c) as [E'|E']; [lia|reflexivity].
+Qed.
+
+Lemma find_sort_term c l :
+  find (fun e : N * N => N.eqb (fst e) c) (sort_term l) = inner_find c l.
+Proof.
+  unfold inner_find, sort_term. induction l as [|x l IH]; cbn [fold_right find]; [reflexivity|].
+  rewrite find_ins_term, IH. reflexivity.
+Qed.
+
+Lemma ins_term_in x l y : In y (ins_term x l) <-> y = x \/ In y l.
+Proof.
+  induction l as [|z l IH]; cbn [ins_term].
+  - cbn. intuition.
+  - destruct (N.leb (fst x) (fst z)); cbn [In]; [intuition|]. rewrite IH. cbn [In]. intuition.
+Qed.
+
+Lemma sort_term_in l y : In y (sort_term l) <-> In y l.
+Proof.
+  unfold sort_term. induction l as [|x l IH]; cbn [fold_right]; [reflexivity|].
+  rewrite ins_term_in, IH. cbn [In]. intuition.
+Qed.
+
+Lemma find_app_ {A} (f : A -> bool) l1 l2 :
+  find f (l1 ++ l2) = match find f l1 with Some x => Some x | None => find f l2 end.
+Proof. induction l1 as [|a l1 IH]; cbn [app find]; [reflexivity|]. destruct (f a); auto. Qed.
+
+Lemma find_map_ {A B} (f : B -> bool) (g : A -> B) l :
+  find f (map g l) = match find (fun x => f (g x)) l with Some x => Some (g x) | None => None end.
+Proof. induction l as [|a l IH]; cbn [map find]; [reflexivity|]. destruct (f (g a)); auto. Qed.
+
+Lemma step_conv d gs s c : gs_sorted gs ->
+  step (flat_map (conv_group d) gs) s c =
+  match tr_get gs s c with Some t => Some (mkTrans s c t (state_prod d t)) | None => None end.
+Proof.
+  unfold step. induction gs as [|g gs IH]; intros Hs; [reflexivity|].
+  inversion Hs as [|? ? Hs' Hall]; subst. cbn [flat_map]. rewrite find_app_.
+  unfold conv_group at 1. rewrite find_map_. cbn [t_from t_tok].
+  unfold tr_get, grp_find. cbn [find].
+  destruct (N.eqb_spec (fst g) s) as [E|E].
+  - cbn [andb]. rewrite find_sort_term. destruct (inner_find c (snd g)) as [e|] eqn:Fi.
+    + unfold inner_find in Fi. apply find_some in Fi as [_ Fi]. apply N.eqb_eq in Fi.
+      rewrite E, Fi. reflexivity.
+    + rewrite (IH Hs'). unfold tr_get.
+      rewrite (grp_find_none_ge s gs); [reflexivity|]. rewrite <- E. exact Hall.
+  - cbn [andb]. rewrite (find_none_intro (fun _ => false)) by reflexivity.
+    apply (IH Hs').
+Qed.
+
+Lemma run_compile d : gs_sorted (la_trans d) -> forall u s,
+  run (transitions (compile_raw d)) u s (state_prod d s) =
+  match la_run (la_trans d) u s with Some s' => Some (s', state_prod d s') | None => None end.
+Proof.
+  intros Hs. induction u as [|c u IH]; intros s; cbn [run la_run]; [reflexivity|].
+  cbn [compile_raw transitions]. rewrite (step_conv d _ s c Hs).
+  destruct (tr_get (la_trans d) s c) as [t|]; [|reflexivity]. cbn [t_to t_prod]. apply IH.
+Qed.
+
+Lemma state_prod_valid d s p :
+  (state_prod d s = p /\ valid p = true) <->
+  (nth_error (la_states d) (N.to_nat s) = Some p /\ valid p = true).
+Proof.
+  unfold state_prod. destruct (nth_error (la_states d) (N.to_nat s)) as [p0|].
+  - destruct (valid p0) eqn:V0.
+    + split; intros [A B]; [subst; auto|inversion A; subst; auto].
+    + split; intros [A B]; [subst; discriminate|inversion A; subst; congruence].
+  - split; intros [A B]; [subst; discriminate|discriminate].
+Qed.
+
+Lemma accepts_compile_raw d paths u p :
+  tinv (length (la_states d)) (la_trans d) paths ->
+  (accepts (compile_raw d) u p <-> la_lang (la_states d) paths u p).
+Proof.
+  intros I. unfold accepts. cbn [prod0 compile_raw].
+  change (transitions (mkDfa (state_prod d 0%N) (flat_map (conv_group d) (la_trans d)) (la_k d)))
+    with (transitions (compile_raw d)).
+  rewrite la_lang_N. split.
+  - intros (s & R & V). rewrite (run_compile d (ti_sorted _ _ _ I)) in R.
+    destruct (la_run (la_trans d) u 0%N) as [s'|] eqn:LR; [|discriminate]. inversion R; subst s.
+    apply (la_run_path _ _ _ I u 0%N [] s' (ti_root _ _ _ I)) in LR. cbn [app] in LR.
+    exists s'. split; [exact LR|]. apply state_prod_valid. rewrite H1. auto.
+  - intros (s' & Hs' & Hq & V). exists s'. rewrite (run_compile d (ti_sorted _ _ _ I)).
+    assert (LR : la_run (la_trans d) u 0%N = Some s').
+    { apply (la_run_path _ _ _ I u 0%N [] s' (ti_root _ _ _ I)). exact Hs'. }
+    rewrite LR. destruct (proj2 (state_prod_valid d s' p) (conj Hq V)) as [-> _]. auto.
+Qed.
+
+(** ** Main theorems for the un-minimised automaton *)
+
+(** [trie_exact].  The statement has the form "the generator succeeds and …" because [unite] can
+    fail (conflict); under [fam_ok] it does not. *)
+Theorem trie_exact fam :
+  fam_ok fam ->
+  exists d, compile fam = Ok d /\ forall u p, accepts d u p <-> In u (strings_of fam p).
+Proof.
+  intros (Hne & Hdet & _). destruct fam as [|e fam']; [congruence|].
+  destruct (la_of_family_spec e fam' Hdet) as (d & paths & E & F & K).
+  exists (compile_raw d). unfold compile. rewrite E. split; [reflexivity|].
+  intros u p. rewrite (accepts_compile_raw d paths u p (fi_t _ _ _ F)), (fi_lang _ _ _ F).
+  apply in_entries.
+Qed.
+
+Lemma SS_app {A} (R : A -> A -> Prop) l1 l2 :
+  StronglySorted R l1 -> StronglySorted R l2 ->
+  (forall a b, In a l1 -> In b l2 -> R a b) -> StronglySorted R (l1 ++ l2).
+Proof.
+  induction l1 as [|x l1 IH]; intros H1 H2 H; [exact H2|]. cbn [app].
+  inversion H1 as [|? ? H1' Hall]; subst. constructor.
+  - apply IH; [exact H1'|exact H2|]. intros a b Ha Hb. apply H; [right; exact Ha|exact Hb].
+  - apply Forall_app. split; [exact Hall|]. apply Forall_forall. intros b Hb.
+    apply H; [left; reflexivity|exact Hb].
+Qed.
+
+Lemma sort_term_sorted l : StronglySorted (fun a b : N * N => (fst a <= fst b)%N) (sort_term l).
+Proof.
+  unfold sort_term. induction l as [|x l IH]; cbn [fold_right]; [constructor|].
+  revert IH. generalize (fold_right ins_term [] l) as s. intros s.
+  induction s as [|y s IHs]; intros Hs; cbn [ins_term].
+  - constructor; constructor.
+  - inversion Hs as [|? ? Hs' Hall]; subst. destruct (N.leb (fst x) (fst y)) eqn:L.
+    + apply N.leb_le in L. constructor; [exact Hs|]. constructor; [exact L|].
+      rewrite Forall_forall in *. intros b Hb. specialize (Hall b Hb). lia.
+    + apply N.leb_gt in L. constructor; [apply IHs; exact Hs'|].
+      apply Forall_forall. intros b Hb. apply ins_term_in in Hb as [->|Hb]; [lia|].
+      rewrite Forall_forall in Hall. apply Hall. exact Hb.
+Qed.
+
+Lemma conv_sorted d gs : gs_sorted gs -> sorted (flat_map (conv_group d) gs).
+Proof.
+  unfold sorted. induction gs as [|g gs IH]; intros Hs; [constructor|].
+  inversion Hs as [|? ? Hs' Hall]; subst. cbn [flat_map]. apply SS_app.
+  - unfold conv_group. assert (S := sort_term_sorted (snd g)). revert S.
+    generalize (sort_term (snd g)) as l. induction l as [|x l IHl]; intros S; [constructor|].
+    inversion S as [|? ? S' A]; subst. cbn [map]. constructor; [apply IHl; exact S'|].
+    apply Forall_forall. intros b Hb. apply in_map_iff in Hb as (y & <- & Hy).
+    rewrite Forall_forall in A. right. cbn [t_from t_tok]. split; [reflexivity|apply A; exact Hy].
+  - apply IH. exact Hs'.
+  - intros a b Ha Hb. unfold conv_group in Ha. apply in_map_iff in Ha as (x & <- & _).
+    apply in_flat_map in Hb as (g' & Hg' & Hb). unfold conv_group in Hb.
+    apply in_map_iff in Hb as (y & <- & _). left. cbn [t_from].
+    rewrite Forall_forall in Hall. apply Hall. exact Hg'.
+Qed.
+
+Theorem compile_sorted fam d : fam_ok fam -> compile fam = Ok d -> sorted (transitions d).
+Proof.
+  intros (Hne & Hdet & _) H. destruct fam as [|e fam']; [congruence|].
+  destruct (la_of_family_spec e fam' Hdet) as (d0 & paths & E & F & K).
+  unfold compile in H. rewrite E in H. cbn [bind] in H. inversion H; subst d.
+  cbn [compile_raw transitions]. apply conv_sorted. apply (ti_sorted _ _ _ (fi_t _ _ _ F)).
+Qed.
+
+Theorem compile_wfd fam d : fam_ok fam -> compile fam = Ok d -> wfd d = true.
+Proof.
+  intros (Hne & Hdet & _) H. destruct fam as [|e fam']; [congruence|].
+  destruct (la_of_family_spec e fam' Hdet) as (d0 & paths & E & F & K).
+  unfold compile in H. rewrite E in H. cbn [bind] in H. inversion H; subst d.
+  unfold wfd. cbn [compile_raw prod0 transitions].
+  destruct (valid (state_prod d0 0%N)) eqn:V; [|reflexivity].
+  destruct (flat_map (conv_group d0) (la_trans d0)) as [|t ts] eqn:Et; [reflexivity|exfalso].
+  assert (I := fi_t _ _ _ F).
+  assert (L0 : In (state_prod d0 0%N, []) (entries (e :: fam'))).
+  { apply (fi_lang _ _ _ F). apply la_lang_N. exists 0%N. split; [apply (ti_root _ _ _ I)|].
+    apply state_prod_valid. auto. }
+  assert (Ht : In t (flat_map (conv_group d0) (la_trans d0))) by (rewrite Et; left; reflexivity).
+  apply in_flat_map in Ht as (g & Hg & Ht). unfold conv_group in Ht.
+  apply in_map_iff in Ht as (x & _ & Hx). apply (proj1 (sort_term_in _ _)) in Hx.
+  assert (Hfl : In (fst g, fst x, snd x) (flat (la_trans d0))).
+  { unfold flat. apply in_flat_map. exists g. split; [exact Hg|]. apply in_map_iff. exists x.
+    split; [reflexivity|exact Hx]. }
+  destruct (ti_sound _ _ _ I _ _ _ Hfl) as (w & _ & Hw). apply npath_in in Hw.
+  destruct (fi_paths _ _ _ F _ Hw) as [Hnil|(q & v & Hv & Hp)]; [destruct w; discriminate|].
+  destruct Hdet as [_ Hd2].
+  destruct (Hd2 _ [] q v L0 Hv) as [<- _]; [exists v; reflexivity|].
+  destruct Hp as (r & Hr). destruct w; discriminate.
+Qed.
+
+(** [compile_depth], for the repaired [unite]: the depth is the length of the longest lookahead
+    string.  For the pinned commit's [unite] this is false, see [compile_depth_refuted] in §5. *)
+Theorem compile_depth fam d : fam_ok fam -> compile fam = Ok d -> depth d = fam_max_len fam.
+Proof.
+  intros (Hne & Hdet & _) H. destruct fam as [|e fam']; [congruence|].
+  destruct (la_of_family_spec e fam' Hdet) as (d0 & paths & E & F & K).
+  unfold compile in H. rewrite E in H. cbn [bind] in H. inversion H; subst d.
+  cbn [compile_raw depth]. exact K.
+Qed.
+
+Corollary compile_depth_check fam d : fam_ok fam -> compile fam = Ok d -> la_depth_check d fam = true.
+Proof. intros Hok H. unfold la_depth_check. apply Nat.eqb_eq. apply (compile_depth fam d Hok H). Qed.
+
+(* ------------------------------------------------------------------------------------------- *)
+(** * §5 Findings (concrete witnesses, by computation) *)
+
+(** Pairwise disjointness of the productions' sets — what [decidable] in k_decision.rs checks
+    ([is_disjoint]); prefix-freeness is NOT checked there (it holds for k-complete tuples). *)
+Definition fam_disjointb (fam : family) : bool :=
+  forallb (fun a => forallb (fun b => negb (str_eqb (snd a) (snd b)) || Z.eqb (fst a) (fst b))
+                            (entries fam)) (entries fam).
+
+(** Without prefix-freeness [unite] silently erases an accepting state: [coin_state] is called
+    with the production number of the other automaton's state even when that state is not
+    accepting ([INVALID_PROD]).  Family {1: [a], 2: [a b]}: no conflict is reported and the
+    string [a] of production 1 is no longer accepted. *)
+Theorem unite_overwrites_refuted :
+  exists fam d u p,
+    fam_disjointb fam = true /\ compile fam = Ok d /\
+    In u (strings_of fam p) /\ acceptsb d u p = false.
+Proof.
+  exists [ (1%Z, [[5%N]]); (2%Z, [[5; 6]%N]) ].
+  eexists. exists [5%N], 1%Z. split; [vm_compute; reflexivity|].
+  split; [vm_compute; reflexivity|]. split; [left; reflexivity|vm_compute; reflexivity].
+Qed.
+
+(** In the other order the inner state becomes accepting and keeps its way on. *)
+Example unite_coins_inner_state :
+  compile [ (2%Z, [[5; 6]%N]); (1%Z, [[5%N]]) ]
+  = Ok (mkDfa (-1) [ mkTrans 0 5 1 1; mkTrans 1 6 2 2 ] 2).
+Proof. vm_compute. reflexivity. Qed.
+
+(** [unite] never looks at the two start states: two productions that both claim the empty
+    string are united without a conflict (the first one wins). *)
+Example unite_start_conflict_undetected :
+  compile [ (1%Z, [[]]); (2%Z, [[]]) ] = Ok (mkDfa 1 [] 0).
+Proof. vm_compute. reflexivity. Qed.
+
+(** [from_k_tuples] with an EMPTY tuple set makes the start state accepting, although the
+    production has no lookahead string at all. *)
+Example empty_tuple_set_accepts :
+  compile [ (1%Z, []); (2%Z, [[5%N]]) ] = Ok (mkDfa 1 [ mkTrans 0 5 1 2 ] 1).
+Proof. vm_compute. reflexivity. Qed.
+
+(** Pinned commit: [unite] never updated [k], the depth of the united automaton was the depth of
+    the FIRST production's trie.  Family of non-terminal X of the grammar
+    [S: "b" X; X: | A1 | A2; A1: "a"; A2: "a" "b";] (a=6, b=5): {1: [$], 2: [a $], 3: [a b]}.
+    The generator of the pinned commit emitted exactly this table with [k: 1] (probe), and the
+    runtime then gives up after one token: prediction error on a sentence of the language. *)
+Definition depth_fam : family := [ (1%Z, [[0%N]]); (2%Z, [[6; 0]%N]); (3%Z, [[6; 5]%N]) ].
+
+Theorem compile_depth_refuted :
+  exists fam d buf p,
+    fam_okb fam = true /\ compile_old fam = Ok d /\ depth d < fam_max_len fam /\
+    In buf (strings_of fam p) /\ eval d buf = PredictionError /\ eval_old d buf = PredictionError.
+Proof.
+  exists depth_fam. eexists. exists [6; 0]%N, 2%Z.
+  split; [vm_compute; reflexivity|]. split; [vm_compute; reflexivity|].
+  split; [vm_compute; lia|]. split; [left; reflexivity|]. split; vm_compute; reflexivity.
+Qed.
+
+Example depth_fam_compiled_old :
+  compile_old depth_fam = Ok (mkDfa (-1) [ mkTrans 0 0 1 1; mkTrans 0 6 2 (-1); mkTrans 2 0 3 2;
+                                           mkTrans 2 5 4 3 ] 1).
+Proof. vm_compute. reflexivity. Qed.
+
+Example depth_fam_compiled :
+  compile depth_fam = Ok (mkDfa (-1) [ mkTrans 0 0 1 1; mkTrans 0 6 2 (-1); mkTrans 2 0 3 2;
+                                       mkTrans 2 5 4 3 ] 2).
+Proof. vm_compute. reflexivity. Qed.
+
+(** The checker pair tells the two aspects apart: on the pinned commit's table the language is
+    right, the depth is not; on the repaired one both are. *)
+Example depth_fam_checks_old :
+  match compile_old depth_fam with
+  | Ok d => la_dfa_check d depth_fam [5; 6]%N = true /\ la_depth_check d depth_fam = false
+  | _ => False
+  end.
+Proof. vm_compute. split; reflexivity. Qed.
+
+Example depth_fam_checks :
+  match compile depth_fam with
+  | Ok d => la_dfa_check d depth_fam [5; 6]%N = true /\ la_depth_check d depth_fam = true
+  | _ => False
+  end.
+Proof. vm_compute. split; reflexivity. Qed.
+
+(** The hypotheses of the main theorems are satisfiable. *)
+Example fam_ok_ex : fam_ok ex_fam /\ fam_ok depth_fam.
+Proof. split; apply fam_okb_spec; vm_compute; reflexivity. Qed.
+
+Print Assumptions la_dfa_check_sound.
+Print Assumptions la_dfa_check_shape.
+Print Assumptions la_dfa_check_eval.
+Print Assumptions la_depth_check_spec.
+Print Assumptions trie_exact.
+Print Assumptions compile_sorted.
+Print Assumptions compile_wfd.
+Print Assumptions compile_depth.
+Print Assumptions compile_depth_check.
+Print Assumptions unite_spec.
+Print Assumptions unite_old_spec.
+Print Assumptions unite_overwrites_refuted.
+Print Assumptions compile_depth_refuted.
